@@ -310,3 +310,17 @@ func checkC02(c *Ctx) {
 		}
 	}
 }
+
+// openChunk: one chunk under the nonce (ctr, last), by the harness's own nonce construction.
+func openChunk(key []byte, ctr uint64, last bool, c []byte) ([]byte, bool) {
+	a, _ := chacha20poly1305.New(key)
+	nonce := make([]byte, 12)
+	for i := 0; i < 8; i++ {
+		nonce[10-i] = byte(ctr >> (8 * uint(i)))
+	}
+	if last {
+		nonce[11] = 1
+	}
+	p, err := a.Open(nil, nonce, c, nil)
+	return p, err == nil
+}
